@@ -612,8 +612,11 @@ class World:
                     data[f] = fh.read()
             except FileNotFoundError:
                 data[f] = None
-        res = read_result_names(outdir)
-        snap = {"i": len(self.log), "dir": outdir, "by": by, "files": data, "results": sorted(res)}
+        rows = sorted((parts[0], parts[1], parts[2]) for _, parts in read_result_rows(outdir) if len(parts) >= 3)
+        res = {r[0] for r in rows}
+        snap = {"i": len(self.log), "dir": outdir, "by": by, "files": data, "results": sorted(res), "rows": rows,
+                "active": sorted(j for j, r in self.slurm.items()
+                                 if r["state"] in ("PENDING", "RUNNING") and r["outdir"] == outdir)}
         try:
             with REAL.open(os.path.join(outdir, "results.json")) as fh:
                 rj = json.load(fh)
@@ -917,16 +920,15 @@ class World:
         if vt.state == "sleeping":
             if self.clock < vt.wake_time:
                 self.clock = vt.wake_time
-            if vt.effects_seen == self.effects:
-                vt.idle_wakeups += 1
-            else:
-                vt.idle_wakeups = 0
-        before = self.effects
+            vt.wake_effects = self.effects
         vt.resume_ev.set()
         self._main_wake.wait()
         vt.env = dict(os.environ)
         if vt.state == "sleeping":
-            if self.effects != before:
+            # an *idle wake-up*: the process woke, changed nothing observable and went back to sleep (poll loop)
+            if self.effects == getattr(vt, "wake_effects", -1):
+                vt.idle_wakeups += 1
+            else:
                 vt.idle_wakeups = 0
             vt.effects_seen = self.effects
         if vt.state == "done":
@@ -976,10 +978,11 @@ class World:
             if r["state"] in ("COMPLETED", "FAILED", "TIMEOUT", "NODE_FAIL") and r["visible"]:
                 ev.append(("expire", jid))
         ev += sleeping
-        for i, (label, pred, fn) in enumerate(self.user_events):
+        for i, ue in enumerate(self.user_events):
+            pred = ue[1]
             if pred is None or pred(self):
                 ev.append(("user", i))
-                break  # user commands are issued in their generated order
+            break  # user commands are issued in their generated order
         return ev
 
     def fire(self, e):
@@ -997,9 +1000,9 @@ class World:
             self.slurm[e[1]]["visible"] = False
             self.note("expire", id=e[1])
         elif kind == "user":
-            label, pred, fn = self.user_events.pop(e[1])
-            self.note("user", cmd=label)
-            fn(self)
+            ue = self.user_events.pop(e[1])
+            self.note("user", cmd=ue[0])
+            ue[2](self)
         else:
             raise HarnessError(f"unknown event {e}")
 
@@ -1014,6 +1017,12 @@ class World:
             if self.steps >= self.max_steps:
                 self.inconclusive = True
                 return False
+            if self.user_events and len(self.user_events[0]) > 3 and self.user_events[0][3]:
+                # a *forced* user command fires as soon as its predicate holds (its moment is part of the case)
+                ue = self.user_events[0]
+                if ue[1] is None or ue[1](self):
+                    self.fire(("user", 0))
+                    continue
             ev = self.enabled()
             if not ev:
                 return True
